@@ -490,7 +490,14 @@ func (b *Blockchain) EventFilter(
 
 // RevertHead reverts the head block
 func (b *Blockchain) RevertHead() error {
-	return b.stateBackend.RevertHead()
+	if err := b.stateBackend.RevertHead(); err != nil {
+		return err
+	}
+	// A revert can re-open a completed window; its cached aggregated filter
+	// would keep answering for the replaced blocks. Reorgs are rare and the
+	// cache refills from the database on demand.
+	b.cachedFilters.Reset()
+	return nil
 }
 
 func (b *Blockchain) GetReverseStateDiff() (core.StateDiff, error) {
